@@ -6,7 +6,8 @@
     operator_table_sound cmp_probe_agrees prec_probe_agrees function_table_sound
     nodetest_table_sound axis_table_sound pred_eval_sound pred_outcome_sound
     substring_not_xpath ne_absent_not_xpath step_matches_eq_xp parser_rejects_outside
-    select_eq_xp_step select_eq_xp_chain select_eq_xp_childpath parser_accepts_subset_partial
+    select_eq_xp_step select_eq_xp_chain select_eq_xp_childpath select_eq_xp_union
+    parser_accepts_subset_partial
 -/
 import Genshi.Model.Path
 import Genshi.Model.PathParse
@@ -19,6 +20,7 @@ import Genshi.Lemmas.PathSelect
 import Genshi.Lemmas.PathChain
 import Genshi.Lemmas.PathParseChain
 import Genshi.Lemmas.PathChildPath
+import Genshi.Lemmas.PathUnion
 namespace Genshi.Props.C05
 open Genshi Genshi.Path
 
@@ -524,6 +526,90 @@ example : select [[⟨.child, .localName false ['t','r'], []⟩,
        Node.elem ⟨[], ['t','r']⟩ [] [Node.elem ⟨[], ['t','d']⟩ [(⟨[], ['i']⟩, ['3'])] []]]).flatten (some .generic)
     = [.ev (.start ⟨[], ['t','d']⟩ [(⟨[], ['i']⟩, ['1'])]), .ev (.end_ ⟨[], ['t','d']⟩),
        .ev (.start ⟨[], ['t','d']⟩ [(⟨[], ['i']⟩, ['3'])]), .ev (.end_ ⟨[], ['t','d']⟩)] := by decide +kernel
+
+/-! ## Unions -/
+
+/-- a single step (not on the attribute axis) as an operand of a union -/
+theorem operand_single (s : Step) (ns : NsMap) (vs : Vars) (root : Node)
+    (hna : s.axis ≠ .attribute) (hcl : root.clean = true) (hwf : s.test.elemWf ns)
+    (htyped : ∀ p ∈ s.preds, p.typed ns vs = true)
+    (hcand : ∀ n ∈ Ref.axisNodes s.axis ⟨[], root⟩, CandOk s ns vs n) :
+    Operand ns vs (toXVars vs) root [s] (.single [s] false) (.s ⟨[], 0⟩) := by
+  refine ⟨?_, ?_, ⟨s, rfl, hna⟩⟩
+  · rw [runTest_single']
+    exact okVals_run _ (sStep_out s hna ns vs) _ [] _
+  · intro x
+    rw [runTest_single']
+    simp only [selB, single_matches s ns vs root hna hcl hwf htyped hcand, Ref.reach]
+
+/-- a child path under GenericStrategy as an operand of a union -/
+theorem operand_childpath (p : LocPath) (hp : ChildPath p) (hne : p ≠ []) (ns : NsMap) (vs : Vars)
+    (tag : QName) (attrs : AttrList) (kids : List Node)
+    (hcl : (Node.elem tag attrs kids).clean = true)
+    (hnodes : AllNodes (NodeFor p ns vs) (.elem tag attrs kids))
+    (hwf : ∀ s ∈ p, s.test.elemWf ns) (htyped : ∀ s ∈ p, ∀ q ∈ s.preds, q.typed ns vs = true) :
+    Operand ns vs (toXVars vs) (.elem tag attrs kids) p (.generic (dotSlash :: p)) (.g gInit) := by
+  have hkcl : cleanList kids = true := by simpa [Node.clean] using hcl
+  refine ⟨?_, ?_, ?_⟩
+  · rw [runTest_generic']
+    exact okVals_run _ (gStep_out _ ns vs (fun e => lastResult_childPath ns p hp hne e)) _ [] _
+  · intro x
+    rw [runTest_generic']
+    simp only [selB, generic_childpath_matches ns vs p hp hne tag attrs kids hkcl]
+    exact chainAtP_reach ns vs p p (fun _ h => h) hp hwf htyped ⟨[], .elem tag attrs kids⟩ hnodes x
+  · cases hl : p.getLast? with
+    | none => simp [List.getLast?_eq_none_iff] at hl; exact absurd hl hne
+    | some last =>
+      refine ⟨last, rfl, ?_⟩
+      rw [hp last (List.mem_of_getLast? hl)]; simp
+
+/-- a chain of child steps without predicates under SimplePathStrategy: it runs like
+    GenericStrategy (`chain_runs`) -/
+theorem operand_chain_simple (tests : List NodeTest) (hne : tests ≠ []) (ns : NsMap) (vs : Vars)
+    (tag : QName) (attrs : AttrList) (kids : List Node)
+    (hcl : (Node.elem tag attrs kids).clean = true)
+    (hnodes : AllNodes (NodeFor (childChain tests) ns vs) (.elem tag attrs kids))
+    (hwf : ∀ t ∈ tests, t.elemWf ns) :
+    Operand ns vs (toXVars vs) (.elem tag attrs kids) (childChain tests)
+      (.simple (fragments (childChain tests)) false) (.p []) := by
+  have hp : ChildPath (childChain tests) := by
+    intro s hs; simp only [childChain, List.mem_map] at hs; obtain ⟨t, _, rfl⟩ := hs; rfl
+  have hne' : childChain tests ≠ [] := by simpa [childChain] using hne
+  have hrok : (Node.elem tag attrs kids).ok = true := ok_of_clean _ hcl
+  have hok : okList kids = true := by simpa [Node.ok] using hrok
+  have hg := operand_childpath (childChain tests) hp hne' ns vs tag attrs kids hcl hnodes
+    (by intro s hs; simp only [childChain, List.mem_map] at hs; obtain ⟨t, ht, rfl⟩ := hs; exact hwf t ht)
+    (by intro s hs q hq; simp only [childChain, List.mem_map] at hs; obtain ⟨t, _, rfl⟩ := hs; simp at hq)
+  have hruns := chain_runs ns vs tests hne tag attrs kids hok
+  have heq : runTest [.simple (fragments (childChain tests)) false] ns vs [.p []] (Node.elem tag attrs kids).flatten
+      = runTest [.generic (dotSlash :: childChain tests)] ns vs [.g gInit] (Node.elem tag attrs kids).flatten := by
+    rw [runTest_simple', runTest_generic', fragments_chain, hruns]
+  exact ⟨heq ▸ hg.ok, fun x => heq ▸ hg.sel x, hg.nonAttr⟩
+
+/-- **select_eq_xp** for unions.  Let every operand of `p1 | p2 | … | pk` be run by a matcher
+    that designates its XPath node set (`Operand`: proved above for a single step under
+    SingleStepStrategy — `operand_single` —, for child-axis paths with any predicates under
+    GenericStrategy — `operand_childpath` — and for predicate-free child chains under
+    SimplePathStrategy — `operand_chain_simple`; these are the strategies `Path.__init__` picks
+    for such operands).  Then `Path.select` over the union dispatcher `_multi` delivers
+    `Ref.xpSelect` of the union: the outermost nodes of the union of the node sets, in document
+    order, with their subtrees — for any number of operands and every element tree.
+    (Operands ending in an attribute step are excluded: finding
+    C05-union-attribute-and-owner.) -/
+theorem select_eq_xp_union (ns : NsMap) (vs : Vars) (tag : QName) (attrs : AttrList) (kids : List Node)
+    (hok : okList kids = true) (ps : List LocPath) (ms : List Matcher) (sts : List MState)
+    (h : Operands ns vs (toXVars vs) (.elem tag attrs kids) ps ms sts) :
+    selectGo ms ns vs sts 0 (Node.elem tag attrs kids).flatten
+      = Ref.xpSelect ps ns (toXVars vs) (.elem tag attrs kids) :=
+  select_union ns vs (toXVars vs) tag attrs kids hok ps ms sts h
+
+-- non-vacuity: `b|a/c` on <r><a><c/></a><b/></r> selects <c/> and <b/> (Single and Simple side by side)
+example : select [[⟨.child, .localName false ['b'], []⟩],
+                  childChain [.localName false ['a'], .localName false ['c']]] [] []
+    (Node.elem ⟨[], ['r']⟩ [] [Node.elem ⟨[], ['a']⟩ [] [Node.elem ⟨[], ['c']⟩ [] []],
+        Node.elem ⟨[], ['b']⟩ [] []]).flatten
+    = [.ev (.start ⟨[], ['c']⟩ []), .ev (.end_ ⟨[], ['c']⟩),
+       .ev (.start ⟨[], ['b']⟩ []), .ev (.end_ ⟨[], ['b']⟩)] := by decide +kernel
 
 /-! ## Witnesses of the recorded findings: the full statement is false of the model there -/
 
